@@ -98,6 +98,18 @@ def tonic_of(key):
 
 
 def check_case(case, ctx):
+    # the tables are total functions on their stated domains: an exception that passes through a library frame is a
+    # violation of its own, not a harness crash
+    try:
+        return _check_case(case, ctx)
+    except Exception as e:  # noqa: BLE001
+        import traceback
+        if not any("/scoda/" in f.filename for f in traceback.extract_tb(e.__traceback__)):
+            raise
+        return [("table_function_raises", f"{list(case)}: {type(e).__name__}: {e}")]
+
+
+def _check_case(case, ctx):
     out = []
     kind = case[0]
     if kind in ("seq_keys", "bar_keys"):
